@@ -28,7 +28,8 @@ def judge(c, prop, events, work, name, cfg=None, module="TraceEvents", keyfn=Non
     p = os.path.join(work, name + ".trace.json")
     with open(p, "w") as fh:
         json.dump(events, fh, separators=(",", ":"))
-    r = tlc_or_die(module, cfg=cfg or "%s_%s.cfg" % (module, prop), env={"TRACE_FILE": p}, timeout=7200)
+    r = tlc_or_die(module, cfg=cfg or "%s_%s.cfg" % (module, prop), env={"TRACE_FILE": p, "NEED_V3": "1" if module == "TraceOracle" else "0",
+                                                                        "NEED_V2": "1" if module == "TraceOracle" else "0"}, timeout=7200)
     c.add_tlc("%s %s (%s)" % (module, prop, name), r)
     if r.distinct != 2 * (len(events) + extra_states):
         raise MachineryError("TLC judged %d states for %d events" % (r.distinct, len(events)))
